@@ -65,6 +65,20 @@ pub struct Mod {
 pub struct Pkt {
     pub implicit: bool,
     pub len: u8,
+    pub crc: bool,
+    pub iq: bool,
+    /// preamble length in symbols
+    pub pre: u16,
+}
+
+impl Pkt {
+    /// the LoRaWAN downlink shape: CRC on, IQ inverted, 8 preamble symbols
+    pub const fn new(implicit: bool, len: u8) -> Pkt {
+        Pkt { implicit, len, crc: true, iq: true, pre: 8 }
+    }
+    pub const fn with(self, crc: bool, iq: bool, pre: u16) -> Pkt {
+        Pkt { crc, iq, pre, ..self }
+    }
 }
 
 #[derive(Debug, Clone, Copy, PartialEq)]
@@ -89,6 +103,10 @@ pub enum Op {
     // ---- LoRa level
     Tx { m: Mod, power: i32, len: u8 },
     Rx { m: Mod, p: Pkt, mode: Mode, end: RxEnd, buf: u16 },
+    /// prepare_for_rx(Continuous) + start_rx once, then two receptions completed by complete_rx (the chip
+    /// raises RxDone twice and reports `first`, then `second`: the buffer pointer moves on); with `refetch`
+    /// the second reception is fetched once more through get_rx_result. The second reception is the observed one.
+    Rx2 { m: Mod, p: Pkt, first: (u8, u8), second: (u8, u8), buf: u16, refetch: bool },
     Listen { freq: u32, bw: usize },
     Cad { m: Mod },
     Cw { m: Mod, power: i32 },
@@ -113,13 +131,15 @@ pub enum Op {
     // ---- LoRaWAN adapter level
     LwTx { m: Mod, power: i8, len: u8 },
     LwRx { m: Mod, ms: Option<u32>, end: RxEnd, buf: u16 },
+    /// setup_rx(Continuous) once, then rx_continuous twice (reports `first`, then `second`, the observed one)
+    LwRx2 { m: Mod, first: (u8, u8), second: (u8, u8), buf: u16 },
     LwLowPower,
 }
 
 #[derive(Debug, Clone, PartialEq)]
 pub struct Hist {
     pub chip: usize,
-    /// board options: bit 0 rx_boost, bit 1 tx_boost (SX127x) / DC-DC (SX126x), bit 2 TCXO
+    /// board options: bit 0 rx_boost, bit 1 tx_boost (SX127x) / DC-DC (SX126x, LR1110), bit 2 TCXO; LR1110 also bit 3 high-power PA, bit 4 DIOs as RF switch
     pub board: u8,
     pub level: usize,
     /// the last operation is the judged request
@@ -140,10 +160,16 @@ fn mod_from(v: &Value) -> Option<Mod> {
     })
 }
 fn pkt_json(p: &Pkt) -> Value {
-    json!({"implicit_header":p.implicit,"payload_length":p.len})
+    json!({"implicit_header":p.implicit,"payload_length":p.len,"crc_on":p.crc,"iq_inverted":p.iq,"preamble":p.pre})
 }
 fn pkt_from(v: &Value) -> Option<Pkt> {
-    Some(Pkt { implicit: v["implicit_header"].as_bool()?, len: v["payload_length"].as_u64()? as u8 })
+    Some(Pkt {
+        implicit: v["implicit_header"].as_bool()?,
+        len: v["payload_length"].as_u64()? as u8,
+        crc: v["crc_on"].as_bool().unwrap_or(true),
+        iq: v["iq_inverted"].as_bool().unwrap_or(true),
+        pre: v["preamble"].as_u64().unwrap_or(8) as u16,
+    })
 }
 fn mode_json(m: &Mode) -> Value {
     match m {
@@ -184,6 +210,8 @@ pub fn op_name(o: &Op) -> &'static str {
     match o {
         Op::Tx { .. } => "prepare_for_tx+tx",
         Op::Rx { .. } => "prepare_for_rx+rx",
+        Op::Rx2 { .. } => "prepare_for_rx+start_rx+2*complete_rx",
+        Op::LwRx2 { .. } => "lorawan-setup_rx+2*rx_continuous",
         Op::Listen { .. } => "listen",
         Op::Cad { .. } => "prepare_for_cad+cad",
         Op::Cw { .. } => "continuous_wave",
@@ -213,6 +241,8 @@ pub fn op_json(o: &Op) -> Value {
     let mut v = match o {
         Op::Tx { m, power, len } => json!({"mod":mod_json(m),"power_dbm":power,"payload_len":len}),
         Op::Rx { m, p, mode, end, buf } => json!({"mod":mod_json(m),"pkt":pkt_json(p),"mode":mode_json(mode),"end":end_json(end),"buffer_size":buf}),
+        Op::Rx2 { m, p, first, second, buf, refetch } => json!({"mod":mod_json(m),"pkt":pkt_json(p),"first_report":[first.0, first.1],"second_report":[second.0, second.1],"buffer_size":buf,"fetch_again":refetch}),
+        Op::LwRx2 { m, first, second, buf } => json!({"mod":mod_json(m),"first_report":[first.0, first.1],"second_report":[second.0, second.1],"buffer_size":buf}),
         Op::Listen { freq, bw } => json!({"freq_hz":freq,"bw_hz":BW_ROUNDED_HZ[*bw]}),
         Op::Cad { m } | Op::KMod { m } | Op::KDoCad { m } => json!({"mod":mod_json(m)}),
         Op::Cw { m, power } => json!({"mod":mod_json(m),"power_dbm":power}),
@@ -234,9 +264,12 @@ pub fn op_from(v: &Value) -> Option<Op> {
     let m = || mod_from(&v["mod"]);
     let p = || pkt_from(&v["pkt"]);
     let buf = || v["buffer_size"].as_u64().map(|b| b.min(256) as u16);
+    let pair = |x: &Value| -> Option<(u8, u8)> { Some((x[0].as_u64()? as u8, x[1].as_u64()? as u8)) };
     Some(match v["op"].as_str()? {
         "prepare_for_tx+tx" => Op::Tx { m: m()?, power: v["power_dbm"].as_i64()? as i32, len: v["payload_len"].as_u64()? as u8 },
         "prepare_for_rx+rx" => Op::Rx { m: m()?, p: p()?, mode: mode_from(&v["mode"])?, end: end_from(&v["end"])?, buf: buf()? },
+        "prepare_for_rx+start_rx+2*complete_rx" => Op::Rx2 { m: m()?, p: p()?, first: pair(&v["first_report"])?, second: pair(&v["second_report"])?, buf: buf()?, refetch: v["fetch_again"].as_bool().unwrap_or(false) },
+        "lorawan-setup_rx+2*rx_continuous" => Op::LwRx2 { m: m()?, first: pair(&v["first_report"])?, second: pair(&v["second_report"])?, buf: buf()? },
         "listen" => Op::Listen { freq: v["freq_hz"].as_u64()? as u32, bw: BW_ROUNDED_HZ.iter().position(|s| Some(*s as u64) == v["bw_hz"].as_u64())? },
         "prepare_for_cad+cad" => Op::Cad { m: m()? },
         "continuous_wave" => Op::Cw { m: m()?, power: v["power_dbm"].as_i64()? as i32 },
@@ -297,6 +330,8 @@ pub trait ChipCtl {
     fn held(&self) -> Held;
     /// scripts what the chip reports when the receiver is started next, and puts the pattern into its buffer
     fn arm_rx(&self, end: RxEnd);
+    /// the receiver is already running (continuous mode): the chip reports another reception now
+    fn raise_rx(&self, end: RxEnd);
     fn power_ons(&self) -> u32;
     fn anomalies(&self) -> Vec<String>;
 }
@@ -334,6 +369,12 @@ impl ChipCtl for Ctl126 {
             RxEnd::Timeout => c.irq_on_rx = IRQ_TIMEOUT,
             RxEnd::None => c.irq_on_rx = 0,
         }
+    }
+    fn raise_rx(&self, end: RxEnd) {
+        self.arm_rx(end);
+        let mut c = self.0.borrow_mut();
+        let f = c.irq_on_rx;
+        c.irq |= f;
     }
     fn power_ons(&self) -> u32 {
         self.0.borrow().power_ons
@@ -377,6 +418,12 @@ impl ChipCtl for Ctl127 {
             RxEnd::None => c.irq_on_rx = 0,
         }
     }
+    fn raise_rx(&self, end: RxEnd) {
+        self.arm_rx(end);
+        let mut c = self.0.borrow_mut();
+        let f = c.irq_on_rx;
+        c.regs[crate::drive::chip127x::REG_IRQ_FLAGS as usize] |= f;
+    }
     fn power_ons(&self) -> u32 {
         self.0.borrow().power_ons
     }
@@ -410,6 +457,12 @@ impl ChipCtl for CtlLr {
             RxEnd::None => 0,
         };
     }
+    fn raise_rx(&self, end: RxEnd) {
+        self.arm_rx(end);
+        let mut c = self.0.borrow_mut();
+        let f = c.irq_on_rx;
+        c.irq |= f;
+    }
     fn power_ons(&self) -> u32 {
         self.0.borrow().power_ons
     }
@@ -434,6 +487,8 @@ pub struct StepObs {
     pub decision: Option<u8>,
     /// result of the packet fetch (receive operations that were started) and the caller's buffer afterwards
     pub fetch: Option<FetchObs>,
+    /// the same reception fetched once more (get_rx_result), where the operation asks for it
+    pub fetch2: Option<FetchObs>,
 }
 
 #[derive(Debug, Clone)]
@@ -488,6 +543,7 @@ const PAYLOAD: [u8; 255] = {
 struct Scratch {
     decision: Option<u8>,
     fetch: Option<FetchObs>,
+    fetch2: Option<FetchObs>,
 }
 
 /// Debug text of the error an operation returned
@@ -508,7 +564,7 @@ fn mk_mod<RK: RadioKind>(radio: &RK, m: &Mod) -> Result<ModulationParams, RadioE
 /// header mode is the operation's own choice (SF6 would force implicit header on SX127x)
 fn mk_pkt<RK: RadioKind>(radio: &RK, p: &Pkt) -> Result<PacketParams, RadioError> {
     let mp = radio.create_modulation_params(SFS[2], BWS[7], CRS[0], 868_100_000)?;
-    radio.create_packet_params(8, p.implicit, p.len, true, true, &mp)
+    radio.create_packet_params(p.pre, p.implicit, p.len, p.crc, p.iq, &mp)
 }
 
 fn exec_kind<RK: RadioKind>(radio: &mut RK, ctl: &dyn ChipCtl, op: &Op, sc: &mut Scratch) -> Result<(), OpErr> {
@@ -583,7 +639,7 @@ fn exec_lora<RK: RadioKind>(lora: &mut LoRa<RK, Delay>, ctl: &dyn ChipCtl, op: &
         Op::Rx { m, p, mode, end, buf } => {
             let mp = mk(lora, m)?;
             sc.decision = Some(mp.low_data_rate_optimize);
-            let pp = lora.create_rx_packet_params(8, p.implicit, p.len, true, true, &mp)?;
+            let pp = lora.create_rx_packet_params(p.pre, p.implicit, p.len, p.crc, p.iq, &mp)?;
             block_on(lora.prepare_for_rx(rx_mode(*mode), &mp, &pp))?;
             if *end == RxEnd::None {
                 return Ok(());
@@ -598,6 +654,32 @@ fn exec_lora<RK: RadioKind>(lora: &mut LoRa<RK, Delay>, ctl: &dyn ChipCtl, op: &
                 Err((t, _)) => Err(OpErr(t.clone())),
             };
             sc.fetch = Some(f);
+            return out;
+        }
+        Op::Rx2 { m, p, first, second, buf, refetch } => {
+            let mp = mk(lora, m)?;
+            sc.decision = Some(mp.low_data_rate_optimize);
+            let pp = lora.create_rx_packet_params(p.pre, p.implicit, p.len, p.crc, p.iq, &mp)?;
+            block_on(lora.prepare_for_rx(RxMode::Continuous, &mp, &pp))?;
+            ctl.arm_rx(RxEnd::Done { len: first.0, off: first.1 });
+            block_on(lora.start_rx())?;
+            let mut scratch = [CANARY; 256];
+            block_on(lora.complete_rx(&pp, &mut scratch))?;
+            ctl.raise_rx(RxEnd::Done { len: second.0, off: second.1 });
+            let mut store = [CANARY; 256];
+            let size = (*buf as usize).min(256);
+            let r = block_on(lora.complete_rx(&pp, &mut store[..size]));
+            let f = to_fetch(r.map(|(l, _)| l as usize), size, &store);
+            let out = match &f.result {
+                Ok(_) => Ok(()),
+                Err((t, _)) => Err(OpErr(t.clone())),
+            };
+            sc.fetch = Some(f);
+            if *refetch && out.is_ok() {
+                let mut store = [CANARY; 256];
+                let r = block_on(lora.get_rx_result(&pp, &mut store[..size]));
+                sc.fetch2 = Some(to_fetch(r.map(|(l, _)| l as usize), size, &store));
+            }
             return out;
         }
         Op::Listen { freq, bw } => block_on(lora.listen(*freq, BWS[*bw])),
@@ -651,6 +733,24 @@ fn exec_lw<RK: RadioKind>(lw: &mut LorawanRadio<RK, Delay, 22>, ctl: &dyn ChipCt
             sc.fetch = Some(FetchObs { result: res, no_packet, size, store: store.to_vec() });
             out
         }
+        Op::LwRx2 { m, first, second, buf } => {
+            block_on(lw.setup_rx(RxConfig { rf: rf(m), mode: LwRxMode::Continuous })).map_err(|e| format!("{e:?}"))?;
+            ctl.arm_rx(RxEnd::Done { len: first.0, off: first.1 });
+            let mut scratch = [CANARY; 256];
+            block_on(lw.rx_continuous(&mut scratch)).map_err(|e| format!("{e:?}"))?;
+            ctl.arm_rx(RxEnd::Done { len: second.0, off: second.1 });
+            let mut store = [CANARY; 256];
+            let size = (*buf as usize).min(256);
+            let (res, out) = match block_on(lw.rx_continuous(&mut store[..size])) {
+                Ok((l, _)) => (Ok(l), Ok(())),
+                Err(e) => {
+                    let x = lw_fetch_err(e);
+                    (x.0, x.2)
+                }
+            };
+            sc.fetch = Some(FetchObs { result: res, no_packet: false, size, store: store.to_vec() });
+            out
+        }
         Op::LwLowPower => block_on(lw.low_power()).map_err(|e| format!("{e:?}")),
         _ => panic!("HARNESS-BUG: {} is not a LoRaWAN-adapter-level operation", op_name(op)),
     }
@@ -677,11 +777,11 @@ fn run_on<RK: RadioKind>(radio: RK, iv: Iv, ctl: Rc<dyn ChipCtl>, h: &Hist) -> O
                 if last {
                     ctl.clear_air();
                 }
-                let mut sc = Scratch { decision: None, fetch: None };
+                let mut sc = Scratch { decision: None, fetch: None, fetch2: None };
                 let r: Result<(), String> = $exec(op, &mut sc);
                 if last {
                     let (air, airs) = ctl.air();
-                    out.last = StepObs { err: r.err(), air, airs, held: ctl.held(), decision: sc.decision, fetch: sc.fetch };
+                    out.last = StepObs { err: r.err(), air, airs, held: ctl.held(), decision: sc.decision, fetch: sc.fetch, fetch2: sc.fetch2 };
                 } else {
                     out.prefix_errs.push(r.err());
                 }
@@ -772,7 +872,7 @@ pub fn run(h: &Hist) -> Outcome {
         }
         _ => {
             let c = rig::new_lr();
-            go!(rig::lr1110(&c), CtlLr(c.clone()))
+            go!(rig::lr1110_board(&c, h.board), CtlLr(c.clone()))
         }
     }
 }
@@ -782,17 +882,17 @@ pub fn run(h: &Hist) -> Outcome {
 /// the request context of an operation: its modulation, packet parameters and power, with defaults where it has none
 pub fn context(j: &Op) -> (Mod, Pkt, i32) {
     let dm = Mod { sf: 2, bw: 7, cr: 0, freq: 868_100_000 };
-    let dp = Pkt { implicit: false, len: 255 };
+    let dp = Pkt::new(false, 255);
     match j {
         Op::Tx { m, power, .. } | Op::Cw { m, power } => (*m, dp, *power),
-        Op::Rx { m, p, .. } => (*m, *p, 14),
+        Op::Rx { m, p, .. } | Op::Rx2 { m, p, .. } => (*m, *p, 14),
         Op::Listen { freq, bw } => (Mod { sf: 2, bw: *bw, cr: 0, freq: *freq }, dp, 14),
         Op::Cad { m } | Op::KMod { m } | Op::KDoCad { m } => (*m, dp, 14),
         Op::Switch { freq } | Op::KChannel { freq } => (Mod { freq: *freq, ..dm }, dp, 14),
         Op::KPkt { p } | Op::KFetch { p, .. } => (dm, *p, 14),
         Op::KPower { power, m, .. } => (m.unwrap_or(dm), dp, *power),
         Op::LwTx { m, power, .. } => (*m, dp, *power as i32),
-        Op::LwRx { m, .. } => (*m, dp, 14),
+        Op::LwRx { m, .. } | Op::LwRx2 { m, .. } => (*m, dp, 14),
         _ => (dm, dp, 14),
     }
 }
@@ -815,9 +915,9 @@ pub fn third_mod(m: &Mod) -> Mod {
 pub fn other_pkts(p: &Pkt) -> (Pkt, Pkt) {
     if p.implicit {
         let l = if p.len >= 40 { p.len / 2 - 3 } else { p.len + 23 };
-        (Pkt { implicit: true, len: l }, Pkt { implicit: false, len: 255 })
+        (Pkt::new(true, l).with(!p.crc, p.iq, 12), Pkt::new(false, 255).with(p.crc, !p.iq, 65535))
     } else {
-        (Pkt { implicit: false, len: if p.len == 255 { 64 } else { 255 } }, Pkt { implicit: true, len: 12 })
+        (Pkt::new(false, if p.len == 255 { 64 } else { 255 }).with(!p.crc, p.iq, 12), Pkt::new(true, 12).with(p.crc, !p.iq, 65535))
     }
 }
 pub fn other_power(p: i32) -> i32 {
@@ -867,6 +967,7 @@ pub fn alphabet(level: usize, j: &Op) -> Vec<Op> {
             Op::Rx { m, p: pa, mode: Mode::Single(20), end: done(&pa), buf: 256 },
             Op::Rx { m, p: pb, mode: Mode::Single(20), end: RxEnd::None, buf: 256 },
             Op::Rx { m: m2, p: pa, mode: Mode::Continuous, end: done(&pa), buf: 256 },
+            Op::Rx2 { m, p, first: (if p.implicit { p.len } else { 21 }, 0), second: (if p.implicit { p.len } else { 34 }, 21), buf: 256, refetch: false },
             Op::Listen { freq: m.freq, bw: m.bw },
             Op::Listen { freq: m2.freq, bw: m2.bw },
             Op::Cad { m },
@@ -882,6 +983,7 @@ pub fn alphabet(level: usize, j: &Op) -> Vec<Op> {
             Op::LwRx { m, ms: Some(20), end: RxEnd::Timeout, buf: 256 },
             Op::LwRx { m, ms: None, end: RxEnd::None, buf: 256 },
             Op::LwRx { m: m2, ms: None, end: RxEnd::Done { len: 40, off: 7 }, buf: 256 },
+            Op::LwRx2 { m, first: (21, 0), second: (34, 21), buf: 256 },
             Op::LwLowPower,
         ],
     }
@@ -948,7 +1050,7 @@ pub fn resolve(level: usize, chip: usize, j: &Op, a: &AOp) -> Op {
             11 => Op::KFetch { p: pp, len: 13, off: a.y, buf: 256 },
             _ => Op::KSleep { warm: false },
         },
-        LORA => match a.kind % 11 {
+        LORA => match a.kind % 12 {
             0 => Op::Tx { m: mm, power: ww, len: 1 + a.y % 40 },
             1 => Op::Rx { m: mm, p: pp, mode, end, buf: 256 },
             2 => Op::Sleep { warm: a.x % 2 == 1 },
@@ -966,19 +1068,21 @@ pub fn resolve(level: usize, chip: usize, j: &Op, a: &AOp) -> Op {
             }
             8 => Op::Standby,
             9 => Op::Rx { m: mm, p: pp, mode: Mode::Single(20), end: RxEnd::None, buf: 256 },
+            10 => Op::Rx2 { m: mm, p: pp, first: (if pp.implicit { pp.len } else { 21 }, a.y), second: (if pp.implicit { pp.len } else { 34 }, a.y.wrapping_add(21)), buf: 256, refetch: a.x % 2 == 0 },
             _ => Op::Sleep { warm: false },
         },
-        _ => match a.kind % 4 {
+        _ => match a.kind % 5 {
             0 => Op::LwTx { m: mm, power: ww as i8, len: 1 + a.y % 40 },
             1 => Op::LwRx { m: mm, ms: if a.x % 2 == 0 { Some(20) } else { None }, end, buf: 256 },
             2 => Op::LwLowPower,
+            3 => Op::LwRx2 { m: mm, first: (21, a.y), second: (34, a.y.wrapping_add(21)), buf: 256 },
             _ => Op::LwRx { m: mm, ms: Some(5), end: RxEnd::None, buf: 256 },
         },
     }
 }
 
 pub fn aop_strategy() -> impl Strategy<Value = AOp> {
-    (0u8..143, 0u8..3, 0u8..3, 0u8..4, 0u8..4, 0u8..4).prop_map(|(kind, mi, pi, wi, x, y)| AOp { kind, mi, pi, wi, x, y })
+    (0u8..156, 0u8..3, 0u8..3, 0u8..4, 0u8..4, 0u8..4).prop_map(|(kind, mi, pi, wi, x, y)| AOp { kind, mi, pi, wi, x, y })
 }
 
 /// (index of the judged request in the caller's list, abstract prefix of 1..=max_len operations)
@@ -1019,7 +1123,7 @@ pub fn prefix_features(h: &Hist) -> Vec<&'static str> {
     }) {
         v.push("different-values-earlier");
     }
-    if pre.iter().any(|o| matches!(o, Op::Rx { end: RxEnd::Done { .. }, .. } | Op::LwRx { end: RxEnd::Done { .. }, .. })) {
+    if pre.iter().any(|o| matches!(o, Op::Rx { end: RxEnd::Done { .. }, .. } | Op::LwRx { end: RxEnd::Done { .. }, .. } | Op::Rx2 { .. } | Op::LwRx2 { .. })) {
         v.push("completed-reception");
     }
     if pre.iter().any(|o| matches!(o, Op::Rx { end: RxEnd::Timeout, .. } | Op::LwRx { end: RxEnd::Timeout, .. })) {
